@@ -283,6 +283,18 @@ let cmd_lattice t =
   let outv v = out_list (List.map fst v); out_str ";"; out_list (List.map snd v) in
   outv a; out_sep (); outv b
 
+(* angular dim x[dim] y[dim] : cosine | alternative_cosine | dot | alternative_dot, each as  class r q  (class 0 zero, 1 one, 2 max, 3 ratio) *)
+let cmd_angular t =
+  let dim = next_int t in
+  let x = next_list t dim in
+  let y = next_list t dim in
+  let o v = (match v with
+    | AZero -> out_int 0; out_int 0; out_int 0
+    | AOne -> out_int 1; out_int 0; out_int 0
+    | AMax -> out_int 2; out_int 0; out_int 0
+    | ARatio (r, q) -> out_int 3; out_z r; out_z q) in
+  o (cosine x y); out_sep (); o (alternative_cosine x y); out_sep (); o (dot x y); out_sep (); o (alternative_dot x y)
+
 (* binmetrics dim x[dim] y[dim] : all count-based metrics as num den pairs *)
 let cmd_binmetrics t =
   let dim = next_int t in
@@ -422,6 +434,7 @@ let dispatch : (string * (toks -> unit)) list = [
   ("sparseops", cmd_sparseops);
   ("binmetrics", cmd_binmetrics);
   ("lattice", cmd_lattice);
+  ("angular", cmd_angular);
   ("otcert", cmd_otcert);
   ("rejsample", cmd_rejsample);
   ("aliasrun", cmd_aliasrun);
